@@ -8,7 +8,7 @@ from ..flow import Flow
 from ..model import AnalysisError, Cls, Func, Program, walk_own
 from ..report import Report
 from ..resolve import const_value, dotted, kwarg
-from ..util import calls_in, ext_name, open_mode, returns_of, src
+from ..util import before, calls_in, ext_name, open_mode, returns_of, src
 from .filefam import Family, run_typestate
 
 
@@ -435,6 +435,19 @@ def r5_index(prog, rep: Report, fam: Family):
     loop_ok = None
     binary = False
     handle_var = None
+    # locals that name the table while it is built (`offsets = [0]; self._lines = offsets` / `self._lines = offsets` at the end)
+    aliases = set()
+    for n in walk_own(f.node):
+        if isinstance(n, ast.Assign) and len(n.targets) == 1:
+            if dotted(n.targets[0]) == (sn, lines_field) and isinstance(n.value, ast.Name):
+                aliases.add(n.value.id)
+            if isinstance(n.targets[0], ast.Name) and dotted(n.value) == (sn, lines_field):
+                aliases.add(n.targets[0].id)
+
+    def is_table(e) -> bool:
+        return dotted(e) == (sn, lines_field) or (isinstance(e, ast.Name) and e.id in aliases)
+    init_seen = None
+    scheme_b = None
     for n in walk_own(f.node):
         if isinstance(n, ast.With):
             for it in n.items:
@@ -442,22 +455,36 @@ def r5_index(prog, rep: Report, fam: Family):
                     binary = "b" in (open_mode(it.context_expr) or "")
                     if isinstance(it.optional_vars, ast.Name):
                         handle_var = it.optional_vars.id
-        if isinstance(n, ast.Assign) and any(dotted(t) == (sn, lines_field) for t in n.targets):
+        if isinstance(n, ast.Assign) and any(is_table(t) for t in n.targets) and not isinstance(n.value, ast.Name) \
+                and dotted(n.value) != (sn, lines_field):
             v = n.value
+            init_seen = v
             init_ok = isinstance(v, ast.List) and len(v.elts) == 1 and const_value(v.elts[0]) == 0
         if isinstance(n, ast.Delete):
             for t in n.targets:
-                if isinstance(t, ast.Subscript) and dotted(t.value) == (sn, lines_field) and const_value(t.slice) == -1:
+                if isinstance(t, ast.Subscript) and is_table(t.value) and const_value(t.slice) == -1:
                     drop_ok = True
-        if isinstance(n, ast.Call) and isinstance(n.func, ast.Attribute) and n.func.attr == "pop" and not n.args \
-                and dotted(n.func.value) == (sn, lines_field):
+        if isinstance(n, ast.Call) and isinstance(n.func, ast.Attribute) and n.func.attr == "pop" and is_table(n.func.value) \
+                and (not n.args or (len(n.args) == 1 and const_value(n.args[0]) == -1)):
             drop_ok = True
     for n in walk_own(f.node):
         if isinstance(n, (ast.While, ast.For)):
             appends = [c for c in ast.walk(n) if isinstance(c, ast.Call) and isinstance(c.func, ast.Attribute)
-                       and c.func.attr == "append" and dotted(c.func.value) == (sn, lines_field)]
+                       and c.func.attr == "append" and is_table(c.func.value)]
             if not appends:
                 continue
+            # the other sound scheme: the *start* of each line is recorded (position taken before the readline that finds the
+            # line), nothing to drop:   start = h.tell();  for _ in <readline loop>: table.append(start); start = h.tell()
+            if len(appends) == 1 and len(appends[0].args) == 1 and isinstance(appends[0].args[0], ast.Name):
+                v_ = appends[0].args[0].id
+                defs_ = [a for a in walk_own(f.node) if isinstance(a, ast.Assign) and len(a.targets) == 1
+                         and isinstance(a.targets[0], ast.Name) and a.targets[0].id == v_]
+
+                def is_tell(e):
+                    return isinstance(e, ast.Call) and isinstance(e.func, ast.Attribute) and e.func.attr == "tell" \
+                        and isinstance(e.func.value, ast.Name) and e.func.value.id == handle_var and not e.args
+                if defs_ and all(is_tell(a.value) for a in defs_):
+                    scheme_b = (n, appends[0], defs_)
             head = n.test if isinstance(n, ast.While) else n.iter
             reads_line = any(isinstance(c, ast.Call) and isinstance(c.func, ast.Attribute) and c.func.attr == "readline"
                              and isinstance(c.func.value, ast.Name) and c.func.value.id == handle_var
@@ -473,19 +500,50 @@ def r5_index(prog, rep: Report, fam: Family):
             uncond = all(getattr(a, "_parent", None) is not None and isinstance(a._parent, ast.Expr)
                          and a._parent in n.body for a in appends)
             loop_ok = reads_line and tells and uncond and len(appends) == 1
-    rep.check("C11.R5", f, "builder:binary", binary, "index built from a binary handle",
-              "the index builder does not open the data file in binary mode (tell() on a text handle is not a byte offset)",
-              scenario="multi-byte UTF-8 content")
-    rep.check("C11.R5", f, "builder:first-offset", init_ok, "offset table starts as [0]",
-              "offset table does not start with [0]", scenario="line 0 is unreachable or shifted")
-    if loop_ok is None:
+    if scheme_b is None:
+        rep.check("C11.R5", f, "builder:binary", binary, "index built from a binary handle",
+                  "the index builder does not open the data file in binary mode (tell() on a text handle is not a byte offset)",
+                  scenario="multi-byte UTF-8 content")
+    if scheme_b is not None:
+        # start offsets: judged as a whole; anything but the exact idiom is left undecided
+        lp, app, defs_ = scheme_b
+        body = lp.body
+        head = lp.test if isinstance(lp, ast.While) else lp.iter
+        one_read = (isinstance(head, ast.Call) and src(head.func) == "iter" and len(head.args) == 2
+                    and src(head.args[0]) == f"{handle_var}.readline" and isinstance(head.args[1], ast.Constant)
+                    and head.args[1].value == (b"" if binary else "")) or \
+                   (isinstance(lp, ast.While) and src(head) == f"{handle_var}.readline()")
+        inside = [a for a in defs_ if a in body]
+        outside = [a for a in defs_ if a not in body]
+        exact = one_read and len(defs_) == 2 and len(inside) == 1 and len(outside) == 1 and len(body) == 2 \
+            and isinstance(body[0], ast.Expr) and body[0].value is app and body[1] is inside[0] \
+            and isinstance(init_seen, ast.List) and not init_seen.elts and not drop_ok \
+            and before(f.node, outside[0], lp)
+        rep.check("C11.R5", f, "builder:binary", binary, "index built from a binary handle",
+                  "the index builder does not open the data file in binary mode (tell() on a text handle is not a byte offset)",
+                  scenario="multi-byte UTF-8 content")
+        for role in ("builder:first-offset", "builder:loop", "builder:drop-last"):
+            if exact:
+                rep.ok("C11.R5", f, role, "start offsets: the position is taken before each readline and recorded when the line exists")
+            else:
+                rep.unrec("C11.R5", f, role, "the builder records positions taken before the reads, but not in the one recognised way "
+                          "(start = h.tell(); for _ in iter(h.readline, b''): table.append(start); start = h.tell())")
+    elif init_seen is not None and not isinstance(init_seen, (ast.List, ast.Tuple, ast.Constant)):
+        rep.unrec("C11.R5", f, "builder:first-offset", f"the offset table is initialised from `{src(init_seen)}`")
+    else:
+        rep.check("C11.R5", f, "builder:first-offset", init_ok, "offset table starts as [0]",
+                  "offset table does not start with [0]", scenario="line 0 is unreachable or shifted")
+    if scheme_b is not None:
+        pass
+    elif loop_ok is None:
         rep.unrec("C11.R5", f, "builder:loop", "no loop appending tell() after a readline() found")
     else:
         rep.check("C11.R5", f, "builder:loop", loop_ok, "tell() appended once after every readline()",
                   "the scan loop does not append exactly one <handle>.tell() after every readline() of the same handle",
                   scenario="offsets skip or duplicate lines")
-    rep.check("C11.R5", f, "builder:drop-last", drop_ok, "the offset past the last line is dropped",
-              "the end-of-file offset is not dropped", scenario="len(f) is one too large; f[-1] == ''")
+    if scheme_b is None:
+        rep.check("C11.R5", f, "builder:drop-last", drop_ok, "the offset past the last line is dropped",
+                  "the end-of-file offset is not dropped", scenario="len(f) is one too large; f[-1] == ''")
     # index-file reader
     rdr = None
     for k in c0.repo_mro():
